@@ -127,8 +127,9 @@ func c4survive(d, v c4set) c4set {
 }
 
 type c4pair struct {
-	v c4set
-	d c4set // nil/empty = no default
+	v   c4set
+	d   c4set
+	has bool // ⟨v, d⟩ rather than ⟨v⟩; d may be empty: ⟨1|2, _|_⟩ is the spec's value of (*1|2) & (1|*2)
 }
 
 // ----- expressions -----
@@ -221,16 +222,20 @@ func c4evalV(e *c4expr, variant bool) c4pair {
 		a, b := c4evalV(e.args[0], variant), c4evalV(e.args[1], variant)
 		p := c4pair{v: c4cross(a.v, b.v)}
 		ad, bd := c4survive(a.d, b.v), c4survive(b.d, a.v)
+		// "if all the marked disjuncts of a marked disjunction are eliminated, then the remaining unmarked
+		// disjuncts are considered as if they originated from an unmarked disjunction"
+		ah := a.has && !(len(a.d) > 0 && len(ad) == 0)
+		bh := b.has && !(len(b.d) > 0 && len(bd) == 0)
 		switch {
-		case len(ad) > 0 && len(bd) > 0:
-			p.d = c4cross(ad, bd)
-		case len(ad) > 0:
-			p.d = c4cross(ad, b.v)
-		case len(bd) > 0:
-			p.d = c4cross(a.v, bd)
+		case ah && bh:
+			p.d, p.has = c4cross(ad, bd), true // U2; may be bottom, which then persists
+		case ah:
+			p.d, p.has = c4cross(ad, b.v), true // U1
+		case bh:
+			p.d, p.has = c4cross(a.v, bd), true
 		}
 		if variant && len(p.v) == 1 {
-			p.d = nil
+			p.d, p.has = nil, false
 		}
 		return p
 	default:
@@ -243,20 +248,26 @@ func c4evalV(e *c4expr, variant bool) c4pair {
 			x := c4evalV(a, variant)
 			if marked {
 				if e.marks[i] {
-					if len(x.d) == 0 {
-						x.d = x.v // M1
+					if !x.has {
+						x.d, x.has = x.v, true // M1
 					}
 				} else {
-					x.d = nil // M0/M3
+					x.d, x.has = nil, false // M0/M3
 				}
 			}
 			p.v = append(p.v, x.v...)
-			p.d = append(p.d, x.d...)
+			if x.has {
+				p.d = append(p.d, x.d...) // D1/D2
+				p.has = true
+			}
 		}
 		p.v = p.v.dedupe()
 		p.d = p.d.dedupe()
+		if marked && len(p.d) == 0 {
+			p.has = false // every marked term was eliminated
+		}
 		if variant && len(p.v) == 1 {
-			p.d = nil
+			p.d, p.has = nil, false
 		}
 		return p
 	}
